@@ -203,7 +203,7 @@ INVALID_KINDS_R = ("unknown_tag", "unknown_member", "index_oob", "count_oob", "c
                    "not_a_tag", "bit_oob", "index_huge")
 INVALID_KINDS_W = ("unknown_tag", "unknown_member", "index_oob", "count_oob", "unencodable", "too_short",
                    "misaligned_bool", "count_absurd", "index_malformed", "not_a_tag", "missing_member", "bit_oob",
-                   "index_huge")
+                   "index_huge", "unencodable_str")
 
 
 def gen_invalid(r, ref, for_write):
@@ -287,6 +287,17 @@ def gen_invalid(r, ref, for_write):
             idx[r.randrange(len(dims))] = str(r.choice((2**32, 2**32 + 5, 99999999999, 2**64)))
             v = gen_value(r, ref, t["type"]) if for_write and t["type"] in ATOMIC_BY_NAME else (1 if for_write else None)
             return pre + t["name"] + "[" + ",".join(idx) + "]", v, kind
+        if kind == "unencodable_str":
+            # a string with a character the controller's 8-bit character set does not have
+            if t["type"] in ATOMIC_BY_NAME or ref.types[t["type"]].get("string_cap") is None or dims:
+                continue
+            cap = ref.types[t["type"]]["string_cap"]
+            if cap < 1:
+                continue
+            bad = r.choice(("\u20ac", "\u03a9", "\u4e2d", "\U0001f600"))
+            base = "".join(chr(r.randrange(32, 127)) for _ in range(r.randint(0, max(0, cap - 1))))
+            k = r.randint(0, len(base))
+            return pre + t["name"], base[:k] + bad + base[k:], kind
         if kind == "missing_member":
             # a structure value that lacks one of the visible non-BOOL members: there is nothing to write for it
             if t["type"] in ATOMIC_BY_NAME or ref.types[t["type"]].get("string_cap") is not None or dims:
